@@ -194,6 +194,38 @@ def gen_idiom_repo(rng):
     return dict(tree=tree, ignores=ignores, ci=rng.random() < 0.1)
 
 
+def gen_suffix_repo(rng):
+    """several `**/x/y/z`-style patterns of different lengths in one ignore file (they share one suffix table in the
+    glob set), the longer first or last, with matching files and directories at depth 0-3"""
+    comps = [b"a", b"b", b"ab", b"a.b", b"x-y", b"b.", b"A"]
+    chain = rng.sample(comps, 4)
+    k = rng.sample([1, 2, 3, 4], rng.randint(2, 3))          # numbers of trailing components used by each pattern
+    if rng.random() < 0.6:
+        k.sort(reverse=True)
+    pats, tree = [], {}
+    for n in k:
+        tail = chain[4 - n:] if n > 1 else [chain[3], rng.choice(comps)]
+        body = b"/".join(esc(c) for c in tail)
+        pats.append(b"**/" + body + rng.choice([b"", b"", b"/"]))
+        for pre in (b"", b"d/", b"d/e/", b"A/d/e/"):
+            path = pre + b"/".join(tail)
+            if rng.random() < 0.5:
+                tree[path] = "f"
+            else:
+                tree[path] = "d"
+                tree[path + b"/" + rng.choice([b"c", b"a.", b"keep"])] = "f"
+    if rng.random() < 0.3:
+        pats.insert(rng.randint(0, len(pats)), gen_line(rng, comps, False))
+    # directories implied by the paths
+    for path in list(tree):
+        parts = path.split(b"/")
+        for i in range(1, len(parts)):
+            tree.setdefault(b"/".join(parts[:i]), "d")
+    tree = {p: t for p, t in tree.items() if not (t == "f" and any(o.startswith(p + b"/") for o in tree))}
+    where = rng.choice([b"", b"", b"d"]) if b"d" in tree and tree[b"d"] == "d" else b""
+    return dict(tree=tree, ignores={where: pats}, ci=False)
+
+
 def gen_blank_repo(rng):
     """names with blanks, written with an UNESCAPED inner blank followed only by escapes (and blanks) up to the end
     of the line: git drops only the unescaped trailing run (`a \\b` is the name "a b", `c \\ ` is "c  "); the files
@@ -840,6 +872,16 @@ CORPUS += [   # an unescaped inner blank followed only by escapes / blanks: only
     dict(tree={b"x": "f", b"x  y": "f", b"x ": "f"}, ignores={b"": [b"x \\ \\y  "]}, ci=False),
     dict(tree={b"plain": "f", b"plain  ": "f", b"p q": "f", b"p": "f"}, ignores={b"": [b"plain  ", b"p*", b"!p \\q "]}, ci=False),
 ]
+CORPUS += [   # two `**/x/y/z`-style patterns of different lengths (one shared suffix table), longer first / last
+    dict(tree={b"d": "d", b"d/x": "d", b"d/x/y": "d", b"d/x/y/z": "f", b"d/p": "d", b"d/p/q": "f", b"x": "d", b"x/y": "d", b"x/y/z": "f",
+               b"d/e": "d", b"d/e/x": "d", b"d/e/x/y": "d", b"d/e/x/y/z": "d", b"d/e/x/y/z/c": "f", b"keep": "f"},
+         ignores={b"": [b"**/x/y/z", b"**/p/q"]}, ci=False),
+    dict(tree={b"d": "d", b"d/x": "d", b"d/x/y": "d", b"d/x/y/z": "f", b"d/p": "d", b"d/p/q": "f", b"keep": "f"},
+         ignores={b"": [b"**/p/q", b"**/x/y/z"]}, ci=False),
+    dict(tree={b"a": "d", b"a/b": "d", b"a/b/ab": "d", b"a/b/ab/c": "f", b"d": "d", b"d/a": "d", b"d/a/b": "d", b"d/a/b/ab": "d",
+               b"d/a/b/ab/c": "f", b"d/b": "d", b"d/b/ab": "f"},
+         ignores={b"": [b"**/a/b/ab/", b"**/b/ab", b"**/ab/c"]}, ci=False),
+]
 KNOWN_CORPUS = [
     dict(tree={b"a": "d", b"a/c": "f", b"abc": "f", b"a-c": "f"}, ignores={b"": [b"a[!b]c"]}, ci=False),          # class vs '/'
     dict(tree={b"a": "f", b"b": "f", b"{a,b}": "f"}, ignores={b"": [b"{a,b}"]}, ci=False),                       # D12
@@ -856,8 +898,10 @@ def run(ctx):
     check_repos(ctx, CORPUS)
     check_repos(ctx, KNOWN_CORPUS)
     n = ctx.count(220)
-    repos = [gen_idiom_repo(rng) if i % 5 == 0 else (gen_blank_repo(rng) if i % 7 == 3 else gen_repo(rng, rng.random() < 0.25))
+    repos = [gen_idiom_repo(rng) if i % 5 == 0 else (gen_blank_repo(rng) if i % 7 == 3 else
+                                                      (gen_suffix_repo(rng) if i % 7 == 6 else gen_repo(rng, rng.random() < 0.25)))
              for i in range(n)]
+    ctx.cov["suffix_table_repos"] = sum(1 for i in range(n) if i % 5 != 0 and i % 7 == 6)
     ctx.cov["blank_escape_repos"] = sum(1 for i in range(n) if i % 5 != 0 and i % 7 == 3)
     ctx.cov["idiom_repos"] = sum(1 for i in range(n) if i % 5 == 0)
     check_repos(ctx, repos)
